@@ -8,6 +8,9 @@ for s in $LIST; do
   [ "$s" = "C01-C" ] && checks="C01 C08"   # overlapping syncs of one publisher: the scripts of C08 see it
   [ "$s" = "C04-D" ] && checks="C04 C14"
   [ "$s" = "C10-D" ] && checks="C10 C09"
+  [ "$s" = "C08-F" ] && checks="C08 C09"   # duplicate filter vs allow callback: C09's statement
+  [ "$s" = "C15-E" ] && checks="C15 C16"   # changes announce/receiver.go Close: needs a pubsub message in flight
+  [ "$s" = "C14-F" ] && checks="C14 C01"
   cd /repo; if [ -n "$(git status --porcelain)" ]; then echo "/repo dirty"; exit 2; fi
   if ! git apply /verif/seeded/$s/patch.diff 2>/dev/null; then
     if ! patch -p1 --no-backup-if-mismatch -s < /verif/seeded/$s/patch.diff >/dev/null 2>&1; then git checkout -- .; git clean -fdq; echo "$s: patch does not apply to the current tree"; echo "{\"applies\": false}" > /verif/seeded/$s/detection.json; continue; fi
